@@ -18,7 +18,8 @@ LEVEL = "translation_validation"
 RULE = ("programs = Struct(header n,m,f,s,e,b2 + 2..7 members drawn from ~45 slot templates over natively emitted classes and linked fall-backs, nested "
         "scopes, probes) with expression parameters from a typed expression generator (int-valued, bool-valued; every operator incl. reflected and unary "
         "forms, str/bytes constants, falsy values, lengths above 255); inputs = header value grid x patterned/random tails; every input the interpreter "
-        "accepts is compared (parse value, rebuilt bytes from the parsed value, sizeof). non-trivial = program with >= 2 natively emitted classes and "
+        "accepts is compared (parse value, rebuilt bytes from the parsed value, the same value with derived members left out); every fourth program is "
+        "context-sized (all members sized by this._params.k) and sizeof is asked under a sequence of 7 keyword contexts on the same compiled instance. non-trivial = program with >= 2 natively emitted classes and "
         ">= 1 expression parameter on an accepted input; distinct by hash of the generated source")
 ASSUMPTIONS = ["documented exclusions are not generated: _index/Index, parsed hooks, discard, _subcons/_io, plain lambdas, Debugger",
                "inputs the interpreter rejects claim nothing (generated code omits length checks by design)",
